@@ -335,7 +335,11 @@ func (fr *Frame) applyContract(callee *ssa.Function, sp *spec.FuncSpec, args []V
 	for _, m := range sp.Modifies {
 		loc, t := env.compileLoc(m)
 		if loc != nil {
-			vc.store(st, loc, vc.fresh("mod", vc.S.Sort(t)))
+			if t == nil {
+				vc.store(st, loc, vc.fresh("mod", vc.cellSort(loc.Cell)))
+			} else {
+				vc.store(st, loc, vc.fresh("mod", vc.S.Sort(t)))
+			}
 		}
 	}
 	// results
@@ -508,7 +512,11 @@ func (fr *Frame) applyIfaceContract(key string, sp *spec.FuncSpec, c *ssa.CallCo
 	for _, m := range sp.Modifies {
 		loc, t := env.compileLoc(m)
 		if loc != nil {
-			vc.store(st, loc, vc.fresh("mod", vc.S.Sort(t)))
+			if t == nil {
+				vc.store(st, loc, vc.fresh("mod", vc.cellSort(loc.Cell)))
+			} else {
+				vc.store(st, loc, vc.fresh("mod", vc.S.Sort(t)))
+			}
 		}
 	}
 	var res []Val
@@ -700,6 +708,11 @@ func (fr *Frame) execAppend(c *ssa.CallCommon, resT types.Type, cond string, st 
 	vc.fact(fmt.Sprintf("(forall ((?i Int)) (! (=> (and (<= 0 ?i) (< ?i %s)) (= (select %s ?i) (select %s ?i))) :pattern ((select %s ?i)) :pattern ((select %s ?i))))", la, ra, sliceArr(srt, at), ra, sliceArr(srt, at)))
 	vc.fact(fmt.Sprintf("(forall ((?i Int)) (! (=> (and (<= 0 ?i) (< ?i %s)) (= (select %s (+ %s ?i)) (select %s ?i))) :pattern ((select %s ?i))))", lb, ra, la, sliceArr(srt, bt), sliceArr(srt, bt)))
 	vc.fact(fmt.Sprintf("(forall ((?i Int)) (! (=> (and (<= %s ?i) (< ?i (+ %s %s))) (= (select %s ?i) (select %s (- ?i %s)))) :pattern ((select %s ?i))))", la, la, lb, ra, sliceArr(srt, bt), la, ra))
+	if srt == "Slice_String" {
+		// the elements of the result are those of both operands (a consequence of the positional facts above,
+		// stated as a ground set equality so that no quantifier instantiation is needed to use it)
+		vc.fact(fmt.Sprintf("(= %s %s)", vc.elemsOf(r), vc.setUnion(vc.elemsOf(at), vc.elemsOf(bt))))
+	}
 	// ground instance for the first appended element: gives E-matching a witness term when the
 	// proof only knows "len(b) > 0"
 	vc.fact(fmt.Sprintf("(=> (> %s 0) (= (select %s %s) (select %s 0)))", lb, ra, la, sliceArr(srt, bt)))
@@ -1177,7 +1190,10 @@ func (fr *Frame) execIterate(c *ssa.CallCommon, args []Val, resT types.Type, con
 	}
 	kv := Val{T: mt.Key(), Term: k}
 	vv := Val{T: mt.Elem(), Term: mapGet(ms, mterm, k)}
+	savedIter := fr.activeIter
+	fr.activeIter = li
 	fr.callClosure(clo, []Val{kv, vv}, types.NewTuple(), cond, body, nil)
+	fr.activeIter = savedIter
 	body.cells[vcell] = fmt.Sprintf("(store %s %s true)", vis, k)
 	savedPos := vc.curPos
 	vc.curPos = fr.pos(c.Pos())
